@@ -39,12 +39,13 @@ def gen(rng, tier, no, wide=False):
                           "series": rng.choice(["both", "both", "queue", "bw", "default"]),
                           "suffix": rng.choice(["_with_counters", "_with_counters", "", "_c"])}
     else:
-        case = G.gen_case(rng, top_ops=rng.choice([1, 2]), max_depth=rng.choice([1, 2]))
+        # one case in eight is a file of several MiB (thousands of metadata entries before the events)
+        case = G.gen_case(rng, top_ops=rng.choice([1, 2]), max_depth=rng.choice([1, 2]), **({"pad_ids": 12000} if rng.random() < 0.12 else {}))
         n = len(case["ranks"])
         vals = rng.sample([0, 1, 2, 3, 7, 10, 64, 123, 1000], n)
         case["params"] = {"mode": "file", "gz": rng.random() < 0.5, "compact": rng.random() < 0.4,
                           "file_ranks": {str(r): v for r, v in zip(sorted(case["ranks"]), vals)},
-                          "no_meta": rng.random() < 0.2, "new_rank": rng.choice([0, 1, 5, 12, 345]),
+                          "no_meta": rng.random() < 0.3, "new_rank": rng.choice([0, 1, 5, 12, 345]),
                           "rewrite_gz": rng.random() < 0.5}
     return case
 
